@@ -77,7 +77,9 @@ def name_patterns(tier='quick', alpha='ab.'):
     # brackets mixing a POSIX class with ranges / a literal '-', and groups after a prefix whose alternatives start with wildcards
     star, q = ('star',), ('q',)
     for items in ((('posix', 'digit'), ('rng', 'a', 'c')), (('posix', 'alpha'), ('ch', '-'), ('ch', '.')), (('rng', 'a', 'c'), ('posix', 'digit'), ('rng', 'x', 'z')),
-                  (('posix', 'upper'), ('ch', 'a'), ('rng', '0', '3'))):
+                  (('posix', 'upper'), ('ch', 'a'), ('rng', '0', '3')),
+                  # a hyphen standing between a character and a POSIX class is literal (no range with a class), and what follows starts afresh
+                  (('ch', 'z'), ('ch', '-'), ('posix', 'digit'), ('ch', '!')), (('ch', 'b'), ('ch', '-'), ('posix', 'alpha'), ('ch', '.'), ('rng', '0', '3'))):
         for neg in (False, True):
             b = ('br', neg, items)
             pats += [(b,), (b, star), (L('a'), b), (b, b)]
